@@ -187,3 +187,8 @@ TEXT["C12"].update(
         "the IPv4 destination is 255.255.255.255 exactly when the request's flags have bit 15 set, otherwise yiaddr."),
     note="NOT decided: the fixed 236-octet header part of Dhcp::serialise (serialise_fixed padding/truncation against parse's null_terminated). A DHCP reply larger than 65507 octets would overflow the 16-bit length arithmetic of new_udp4/new_ipv4 (precondition of the frame contract; the send path does not bound the serialised size -- observation, DESIGN 8). "
          "Assumed: the encoder's HashMap view m@ and the decoder's abstract table opts_view describe the same table; Serialise for u8 pushes the octet; slice::chunks; nix SockaddrIn accessors; derived Clone of Fragment structural. Defect D12b found here and fixed (649d304).")
+
+TEXT["C17"].update(
+    level=TEXT["C17"]["level"] + " build_announcement_pure (Verus, unbounded): header fields copied; one prefix option per configured prefix, in order, with its flags/lifetimes/address; recursive DNS servers / search list / captive portal: the interface's value wins, null (DontSet) gives no option, "
+          "not specified falls back to the top-level setting with the unspecified address replaced by the interface's own address and IPv4 servers dropped; lifetimes default to 1800 s; PREF64 copied; exact option order; every link-layer option is 6 octets (the serialiser's precondition).",
+    note="Not decided: the path from YAML to radv::config::Interface beyond the sliced tri-state arms, build_announcement (async netinfo lookups: which interface address becomes $self6, MTU).")
